@@ -6,9 +6,10 @@ for f in $(git diff --name-only --diff-filter=U); do
   case "$f" in
     evidence/*) git checkout --theirs -- "$f";;
     MANIFEST.json|known_findings.json|DESIGN.md|seeded/*) git checkout --ours -- "$f";;
-    *) echo "UNRESOLVED $f";;
+    *) echo "UNRESOLVED $f"; bad=1;;
   esac
 done
+if [ -n "$bad" ]; then echo "ABORT: unresolved conflicts — fix by hand, then git add -A && git commit"; exit 1; fi
 python3 mkmanifest.py > /dev/null
 git add -A
 git diff --cached --name-only --diff-filter=U
